@@ -43,9 +43,10 @@ class PInt(object):
     """a pointer-derived integer: sum of coeff*address(obj) + off (64-bit).  The common case is one object
     with coefficient 1 (plain ptrtoint); differences, negations (~p = -p-1) and sums arise from compiler-
     generated address arithmetic and cancel back to plain integers."""
-    __slots__ = ('co', 'off')
+    __slots__ = ('co', 'off', 'w')
 
-    def __init__(s, p=None, co=None, off=0):
+    def __init__(s, p=None, co=None, off=0, w=64):
+        s.w = w
         if p is not None:
             if p.__class__ is Ptr:
                 s.co = ((p.obj, 1),); s.off = p.off
@@ -56,7 +57,7 @@ class PInt(object):
 
     @property
     def p(s):
-        if len(s.co) == 1 and s.co[0][1] == 1:
+        if s.w == 64 and len(s.co) == 1 and s.co[0][1] == 1:
             o = s.co[0][0]
             if o.__class__ is int: return Ptr(o, s.off)
             return o          # FnPtr
@@ -65,7 +66,7 @@ class PInt(object):
     def __repr__(s): return 'PInt(%r,%r)' % (s.co, s.off)
 
 
-def pint_lin(a, b, ka, kb):
+def pint_lin(a, b, ka, kb, w=64):
     """ka*a + kb*b where a, b are PInt or plain 64-bit ints/terms; returns PInt or int/term"""
     co = {}
     off = 0
@@ -87,8 +88,9 @@ def pint_lin(a, b, ka, kb):
         if off >> 63: off -= 1 << 64
     co = tuple(sorted(((o, c) for o, c in co.items() if c != 0), key=lambda t: (str(type(t[0])), str(t[0]))))
     if not co:
-        return off & ((1 << 64) - 1) if off.__class__ is int else off
-    return PInt(co=co, off=off)
+        if off.__class__ is int: return off & ((1 << w) - 1)
+        return off if w == 64 else z3.Extract(w - 1, 0, off)
+    return PInt(co=co, off=off, w=w)
 
 
 class Undef(object):
